@@ -161,7 +161,7 @@ class OMachine(Machine):
                     v = {'+=': lambda: a + b, '-=': lambda: a - b, '*=': lambda: a * b, '|=': lambda: a | b, '&=': lambda: a & b}[op]()
                 self.assign(t, v)
                 return v
-            if op == '->*':
+            if op in ('->*', '.*'):
                 return ('bound', self.ev(e['lhs']), self.ev(e['rhs']))
             if op in ('==', '!=', '<', '>', '<=', '>=', '+', '-'):
                 l, r = self.ev(e['lhs']), self.ev(e['rhs'])
@@ -177,7 +177,10 @@ class OMachine(Machine):
                 if op == '>': return int(l > r)
                 if op == '<=': return int(l <= r)
                 if op == '>=': return int(l >= r)
-                if op == '+': return l + r
+                if op == '+':
+                    if isinstance(l, str) and isinstance(r, int):
+                        return l[r:]            # pointer into a character string
+                    return l + r
                 if op == '-': return l - r
         if k == 'Cast' and e.get('ck') in ('PointerToBoolean',):
             v = self.ev(e['e'])
@@ -211,10 +214,16 @@ class OMachine(Machine):
             finally:
                 for o in reversed(self._raii[mark:]):
                     body = self.world.destructor(o)
-                    if body is not None:
+                    if callable(body):
+                        body(o)                     # a modelled guard: its effect is given by the world
+                    elif body is not None:
                         self.run_body(body, [], o)
                 del self._raii[mark:]
             return
+        if k == 'Decl':
+            for v in s['vars']:
+                if v.get('init') is None and v['id'] not in self.env and 'XObjectPtr' in (v.get('ty') or ''):
+                    self.env[v['id']] = None        # a default-constructed (null) XObjectPtr
         if k == 'Decl' and getattr(self.world, 'destructor', None) is not None:
             for v in s['vars']:
                 if v.get('init') is not None:
@@ -269,6 +278,13 @@ class OMachine(Machine):
             if isinstance(b, Vec):
                 b.items[i] = v
                 return
+        if k == 'MCall' and t.get('n') in ('back', 'front') and not t.get('args'):
+            vec = self.target_obj(t)
+            if isinstance(vec, Vec):
+                if not vec.items:
+                    raise Fault('%s() of an empty vector' % t['n'])
+                vec.items[-1 if t['n'] == 'back' else 0] = v
+                return
         if hasattr(self.world, 'store') and self.world.store(self, t, v):
             return
         raise Unsupported('assignment target ' + pp(t)[:60])
@@ -308,6 +324,13 @@ class OMachine(Machine):
             return r
         finally:
             w.depth -= 1
+
+    def ev_arg(self, x):
+        """an argument: a local that is declared but not yet assigned may be handed over by reference"""
+        t = strip_casts(x)
+        if t is not None and t.get('k') == 'Ref' and t.get('d') == 'local' and t.get('id') not in self.env:
+            return None
+        return self.ev(x)
 
     def vec_method(self, v, n, c):
         a = c.get('args', [])
@@ -459,12 +482,12 @@ class OMachine(Machine):
                 if (body is None or body.get('body') is None) and c.get('virt') and hasattr(w, 'resolve_virtual'):
                     body = w.resolve_virtual(tgt, c)
                 if body is not None and body.get('body') is not None and w.allow(body, c):
-                    return self.run_body(body, [self.ev(x) for x in c.get('args', [])], tgt, c)
+                    return self.run_body(body, [self.ev_arg(x) for x in c.get('args', [])], tgt, c)
             return NotImplemented
         if k == 'Call' and c.get('usr'):
             body = w.facts.ast(c['usr'])
             if body is not None and body.get('body') is not None and w.allow(body, c):
-                return self.run_body(body, [self.ev(x) for x in c.get('args', [])], None, c)
+                return self.run_body(body, [self.ev_arg(x) for x in c.get('args', [])], None, c)
         if k == 'Ctor' and c.get('usr'):
             body = w.facts.ast(c['usr'])
             if body is not None and body.get('body') is not None and body.get('inits') is not None and w.allow(body, c) and getattr(w, 'construct_objects', False):
